@@ -80,12 +80,19 @@ def spec_spellings(cols, bars):
                     out.append(['star', i, k, 'post'])
                 if len(set(bars[i:i + k])) == 1:
                     out.append(['star', i, k, 'pre'])
-    return out
+    seen = set()
+    res = []
+    for sp in out:          # several descriptors can print the same text: keep the first
+        s = print_spec(cols, bars, sp)
+        if s not in seen:
+            seen.add(s)
+            res.append(sp)
+    return res
 
 
 def print_spec(cols, bars, spell):
     n = len(cols)
-    G = ['|' if b else '' for b in bars]
+    G = ['|' * b for b in bars]
     C = [_col(t) for t in cols]
     kind = spell[0]
     if kind in ('plain', 'sp'):
@@ -149,6 +156,9 @@ def cell_body(kind, m, outer, dev):
         return '%s %s' % (a, b), (T(a, b),)
     if kind == 'E':
         return '', ()
+    if kind == 'P2':
+        a, b = m(), m()
+        return '%s\n\n%s' % (a, b), (T(a), T(b))
     if kind == 'BF':
         a = m()
         return '\\bfseries %s' % a, (T(a, fmt=('bfseries',)),)
@@ -325,6 +335,10 @@ def build_list(ast, m, dev=()):
             a, b = m(), m()
             s += ' %s\n\\begin{quote}%s\\end{quote}\n' % (a, b)
             segs = (T(a), ('env', 'quote', (T(b),)))
+        elif ctype == 'EL':
+            a, b, c = m(), m(), m()
+            s += ' %s\n\\begin{quote}\\begin{itemize}\\item %s\\item %s\\end{itemize}\\end{quote}\n' % (a, b, c)
+            segs = (T(a), ('env', 'quote', (('list', 'itemize', ((None, (T(b),)), (None, (T(c),)))),)))
         elif ctype == 'ET':
             a = m()
             ts, te = build_table(IN_ITEM, m, None, dev)
